@@ -15,6 +15,7 @@ ORACLES = {
 # (scenario factory, args, depth quick, depth thorough, split on first symbol)
 PLAN = [
     ("flow", (), 7, 10, False),
+    ("flowblocks", (), 6, 8, True),
     ("tests", (), 6, 8, True),
     ("lists", (), 6, 8, True),
     ("roles", (), 4, 5, True),
@@ -43,7 +44,7 @@ def plan(tier, include_args=True, include_noreq=False, only=None):
     return out
 
 
-POSTS = {"c07removal": E.post_c07_removal, "c18suffix": E.post_c18_suffix, "c04": E.post_c04}
+POSTS = {"c07removal": E.post_c07_removal, "c18suffix": E.post_c18_suffix, "c04": E.post_c04, "reuse": E.post_reuse}
 
 
 def make_tasks(tier, seed, oracles, layouts=(), layout_depth=2, budget_s=None, post=None, base_layout="space", **kw):
@@ -165,6 +166,15 @@ def replay_text(payload, oracles, post=None):
     out = []
     for o in oracles:
         out.extend(ORACLES[o](case))
+    if payload.get("dirty_hex"):
+        ns = E.seams.load()
+        p = ns.parser.Parser()
+        E.seams.run_parse(bytes.fromhex(payload["dirty_hex"]), parser=p, want_tree=False)
+        o2 = E.seams.run_parse(text, parser=p)
+        o1 = case.obs
+        if (o2.verdict, o2.error, o2.error_pos, o2.tree) != (o1.verdict, o1.error, o1.error_pos, o1.tree):
+            v = E.viol(payload["property"], payload["signature"][1], case, "REUSE", payload["signature"][3], None, None, "reused parser differs from a fresh one")
+            out.append(v)
     return out
 
 
@@ -179,11 +189,11 @@ ASSUMPTIONS = [
 # E3: grammar-directed valid scripts and their single-token edits (mc/validgen.py)
 
 
-def valid_tasks(tier, seed, oracles, post=None, with_edits=True, layouts=()):
+def valid_tasks(tier, seed, oracles, post=None, with_edits=True, layouts=(), base_layout="space", edit_layouts=()):
     from mc import validgen as G
 
     tasks = []
-    base = dict(oracles=list(oracles), post=post, layouts=list(layouts))
+    base = dict(oracles=list(oracles), post=post, layouts=list(layouts), base_layout=base_layout, edit_layouts=list(edit_layouts))
     tdepth = 3 if tier == "quick" else 4
     nt = len(G.tests(tdepth))
     chunk = 16 if tier == "quick" else 64
@@ -245,7 +255,7 @@ def valid_task(t):
     distinct = set()
     for w in _valid_words(t):
         word = G.PREFIX + tuple(w)
-        case = E.execute(word, want_config=False)
+        case = E.execute(word, want_config=(t.get("post") == "c18suffix"), layout=t.get("base_layout", "space"))
         st.executions += 1
         st.transitions += 1
         st.verdicts[case.obs.verdict] = st.verdicts.get(case.obs.verdict, 0) + 1
@@ -260,13 +270,14 @@ def valid_task(t):
             viols.extend(o(case))
         if post is not None:
             viols.extend(post(case, st) or ())
-        for lay in t.get("layouts") or ():
-            if case.v.kind != "VALID":
-                break
-            lc = E.execute(word, layout=lay, want_config=False)
+        lays = (t.get("layouts") or ()) if case.v.kind == "VALID" else (t.get("edit_layouts") or ())
+        for lay in lays:
+            lc = E.execute(word, layout=lay, want_config=(t.get("post") == "c18suffix"))
             st.executions += 1
             for o in orcs:
                 viols.extend(o(lc))
+            if post is not None:
+                viols.extend(post(lc, st) or ())
         distinct.add((case.v.kind, case.v.reason, case.v.owner, case.obs.verdict, len(case.toks)))
         if len(st.samples) < 2 and case.v.kind == "VALID" and len(w) > 8:
             st.samples.append({"word": words.show(tuple(w)), "impl": case.obs.brief(), "ref": repr(case.v)})
